@@ -90,7 +90,7 @@ def errColumn (n : Nat) (e : Error) : Nat × Nat :=
   (e.colStart + offset, e.colEnd + offset)
 
 /-- `Error::column()`: the stored column shifted by the width of the line number and a blank
-    (same function as `errColumn`, keyed by the error's own line; see `Thm.C19.errColumn_eq`) -/
+    (same function as `errColumn`, keyed by the error's own line; see `Thm.C15.errColumn_eq`) -/
 def errorColumn (e : Error) : Nat × Nat :=
   match e.line with
   | some n => let off := (toString n).length + 1; (e.colStart + off, e.colEnd + off)
